@@ -240,6 +240,103 @@ def _tv(prop, name, params, R, sc, seed):
     return {'status': 'agree' if not bad else 'disagree', 'compared': n, 'bad': bad}
 
 
+# -------------------------------------------------------------------------- pool
+def _worker_loop(conn):
+    """persistent worker: receives tasks, sends results; killed by the parent when a task overruns its hard deadline
+    (a solver call that ignores its timeout cannot be interrupted from inside the process)"""
+    while True:
+        try:
+            task = conn.recv()
+        except (EOFError, OSError):
+            return
+        if task is None:
+            return
+        try:
+            res = run_task(task)
+        except BaseException as e:       # noqa
+            res = {'scenario': task[1], 'params': task[2], 'obligations': [], 'error': 'worker failure: %r' % (e,), 'exception': None, 'wall_s': 0}
+        try:
+            conn.send(res)
+        except Exception:
+            return
+
+
+def _run_pool(tasks, jobs, t0):
+    from multiprocessing.connection import wait
+    ctxm = mp.get_context('spawn')
+    pending = list(enumerate(tasks))[::-1]
+    results = []
+    workers = []
+
+    def spawn():
+        a, b = ctxm.Pipe()
+        p = ctxm.Process(target=_worker_loop, args=(b,), daemon=True)
+        p.start()
+        b.close()
+        return {'proc': p, 'conn': a, 'task': None, 'since': None}
+    for _ in range(min(jobs, max(1, len(tasks)))):
+        workers.append(spawn())
+    done = 0
+    while done < len(tasks):
+        for w in workers:
+            if w['task'] is None and pending:
+                idx, t = pending.pop()
+                try:
+                    w['conn'].send(t)
+                    w['task'], w['since'] = t, time.time()
+                except Exception:
+                    pending.append((idx, t))
+                    w.update(spawn())
+        busy = [w for w in workers if w['task'] is not None]
+        if not busy:
+            continue
+        ready = wait([w['conn'] for w in busy], timeout=1.0)
+        now = time.time()
+        for w in busy:
+            t = w['task']
+            hard = t[5].get('task_timeout', 900) + 120
+            if w['conn'] in ready:
+                try:
+                    r = w['conn'].recv()
+                except (EOFError, OSError):
+                    r = {'scenario': t[1], 'params': t[2], 'obligations': [], 'error': 'worker died', 'exception': None, 'wall_s': now - w['since']}
+                    try:
+                        w['proc'].kill()
+                    except Exception:
+                        pass
+                    w.update(spawn())
+                results.append(r)
+                done += 1
+                w['task'] = None
+                if os.environ.get('VERIF_PROGRESS'):
+                    sys.stderr.write('[%6.1fs] %5.1fs %s %s %s\n' % (time.time() - t0, r.get('wall_s', 0), r['scenario'], json.dumps(r['params']),
+                                     (r.get('error') or r.get('exception') or '')[:200]))
+            elif now - w['since'] > hard:
+                try:
+                    w['proc'].kill()
+                    w['proc'].join(5)
+                except Exception:
+                    pass
+                results.append({'scenario': t[1], 'params': t[2], 'obligations': [], 'exception': None, 'wall_s': now - w['since'],
+                                'error': 'task killed after %d s: a solver call did not return within its budget (inconclusive)' % int(now - w['since'])})
+                done += 1
+                w.update(spawn())
+                w['task'] = None
+    for w in workers:
+        try:
+            w['conn'].send(None)
+        except Exception:
+            pass
+    for w in workers:
+        try:
+            w['proc'].join(2)
+            if w['proc'].is_alive():
+                w['proc'].kill()
+        except Exception:
+            pass
+    return results
+
+
 # -------------------------------------------------------------------------- main
 def load_known():
     p = os.path.join(VERIF, 'known_findings.json')
@@ -302,21 +399,7 @@ def main(argv):
                     'cvc5': 2 if gi == 0 else 0, 'replay_random': meta.get('replay_random', 2),
                     'task_timeout': meta.get('task_timeout', {}).get(tier, 900 if tier == 'quick' else 3600)}
             tasks.append((prop, s.name, params, tier, seed, opts))
-    results = []
-    ctxm = mp.get_context('spawn')
-    with cf.ProcessPoolExecutor(max_workers=jobs, mp_context=ctxm) as ex:
-        futs = {ex.submit(run_task, t): t for t in tasks}
-        for f in cf.as_completed(futs):
-            t = futs[f]
-            try:
-                results.append(f.result())
-                if os.environ.get('VERIF_PROGRESS'):
-                    r = results[-1]
-                    sys.stderr.write('[%6.1fs] %5.1fs %s %s %s\n' % (time.time() - t0, r.get('wall_s', 0), r['scenario'], json.dumps(r['params']),
-                                     (r.get('error') or r.get('exception') or '')[:200]))
-            except Exception as e:
-                results.append({'scenario': t[1], 'params': t[2], 'obligations': [], 'error': 'worker died: %r' % (e,),
-                                'exception': None, 'wall_s': 0})
+    results = _run_pool(tasks, jobs, t0)
     results.sort(key=lambda r: (r['scenario'], json.dumps(r['params'], sort_keys=True)))
     try:
         os.makedirs(os.path.join(VERIF, '.runlog'), exist_ok=True)
